@@ -1106,7 +1106,9 @@ class tensor:
                [4., 4.]]), array([[4., 4.],
                [4., 4.]])]
         """
+        weights = None
         if isinstance(U, ttb.ktensor):
+            weights = U.weights
             U = U.factor_matrices
         split_idx = min_split(self.shape)
         V = [np.empty_like(self.data, shape=())] * self.ndims
@@ -1124,6 +1126,9 @@ class tensor:
             V[k] = mttv_mid(W, U[k + 1 :])
             W = mttv_left(W, U[k])
         V[-1] = W
+        if weights is not None:
+            # Every mode's result is linear in the weight of each component
+            V = [V_k * weights for V_k in V]
         return V
 
     @property
